@@ -78,6 +78,20 @@ def _expand_chunk(entries):
                 "recorded for it (non-determinism or a copy that is not faithful)"
             )
         nvalid += 1
+        if state_check is not None and hist:
+            # state invariant: evaluated exactly once per state, when the state is expanded
+            # (the parent has deduplicated it globally by then)
+            pre = build(system, hist[:-1])
+            bad = state_check(pre, hist[-1], w0, None)
+            if bad:
+                for fp, detail in bad:
+                    e = viols.get(fp)
+                    if e is None:
+                        viols[fp] = [1, {"history": list(hist), "detail": detail}]
+                    else:
+                        e[0] += 1
+                continue          # a violating state is not expanded
+            w0 = build(system, hist)      # the check may have touched library globals
         ops = list(system.ops(w0))
         if ops and _SEED:
             k = _SEED % len(ops)
@@ -110,17 +124,6 @@ def _expand_chunk(entries):
                 nnontriv += 1
             d = _digest(system, w)
             if d != dg and d not in succ:
-                if state_check is not None:
-                    # state invariant, evaluated once per (locally) new state
-                    bad = state_check(w0, op, w, obs)
-                    if bad:
-                        for fp, detail in bad:
-                            e = viols.get(fp)
-                            if e is None:
-                                viols[fp] = [1, {"history": list(hist) + [op], "detail": detail}]
-                            else:
-                                e[0] += 1
-                        continue
                 succ[d] = hist + (op,)
     return succ, viols, ntrans, nvalid, nnontriv, outcomes, npruned
 
@@ -170,12 +173,13 @@ def explore(system, *, seed=0, workers=None, max_states=None, time_cap=None, log
                 res.cap = f"state cap {max_states} hit with {len(frontier)} states of depth {res.depth} unexpanded"
                 break
             res.levels.append(len(frontier))
-            if len(frontier) < 24 or workers == 1:
+            heavy = getattr(system, "heavy_states", False)     # expensive per-state checks: shard finely
+            if len(frontier) < (2 if heavy else 24) or workers == 1:
                 results = [_expand_chunk(frontier)]
             else:
                 if pool is None:
                     pool = multiprocessing.get_context("fork").Pool(workers)
-                n = max(1, min(200, len(frontier) // (workers * 4) or 1))
+                n = 1 if heavy else max(1, min(200, len(frontier) // (workers * 4) or 1))
                 chunks = [frontier[i:i + n] for i in range(0, len(frontier), n)]
                 results = pool.imap_unordered(_expand_chunk, chunks)
             nxt = []
